@@ -113,6 +113,13 @@ func buildImports(imports []*ast.ImportSpec) string {
 func (g *Generator) extractTopFiels(pkg *packages.Package, st *ast.StructType, fields *[]*Field) {
 	//fields that are left out (name -> smallest depth) still hide deeper promoted fields of the same name
 	hidden := make(map[string]int32)
+	//the struct itself and the embedded structs the walk is currently inside of
+	expanding := map[*types.Struct]bool{}
+	if tv, ok := pkg.TypesInfo.Types[st]; ok {
+		if self, ok := tv.Type.(*types.Struct); ok {
+			expanding[self] = true
+		}
+	}
 	defer func() {
 		for _, f := range *fields {
 			if d, ok := hidden[f.name]; ok && f.depth > d {
@@ -132,7 +139,7 @@ func (g *Generator) extractTopFiels(pkg *packages.Package, st *ast.StructType, f
 		if len(f.Names) == 0 {
 			//embedded: gorm.Model
 			typ := pkg.TypesInfo.TypeOf(f.Type)
-			expandIfStruct(pkg, g.qualifier, 0, typ, isNew, hidden, fields)
+			expandIfStruct(pkg, g.qualifier, 0, typ, isNew, hidden, expanding, fields)
 			continue
 		}
 
@@ -283,7 +290,7 @@ func newBodyRec(buf *bytes.Buffer, fields []*Field, pointer int, depth int32, na
 	return i
 }
 
-func expandIfStruct(pkg *packages.Package, qf types.Qualifier, depth int32, t types.Type, isNew bool, hidden map[string]int32, fields *[]*Field) {
+func expandIfStruct(pkg *packages.Package, qf types.Qualifier, depth int32, t types.Type, isNew bool, hidden map[string]int32, expanding map[*types.Struct]bool, fields *[]*Field) {
 	var stru *types.Struct
 	switch tt := t.(type) {
 	case *types.Pointer:
@@ -300,6 +307,14 @@ func expandIfStruct(pkg *packages.Package, qf types.Qualifier, depth int32, t ty
 		stru = tt
 	}
 	if stru != nil {
+		//a struct that (directly or through others) embeds a pointer to itself: its fields are
+		//already collected at a smaller depth, where they hide these; expanding again never ends
+		if expanding[stru] {
+			return
+		}
+		expanding[stru] = true
+		defer delete(expanding, stru)
+
 		qname, isPtr := qualifiedName(t, qf)
 		checkShadowAndAppend(fields, &Field{
 			name:          shortName(t),
@@ -309,16 +324,16 @@ func expandIfStruct(pkg *packages.Package, qf types.Qualifier, depth int32, t ty
 			isEmbeded:     true,
 			typ:           t,
 		})
-		extractStructFields(pkg, qf, depth+1, stru, isNew, hidden, fields)
+		extractStructFields(pkg, qf, depth+1, stru, isNew, hidden, expanding, fields)
 	}
 }
 
-func extractStructFields(pkg *packages.Package, qf types.Qualifier, depth int32, st *types.Struct, isNew bool, hidden map[string]int32, fields *[]*Field) {
+func extractStructFields(pkg *packages.Package, qf types.Qualifier, depth int32, st *types.Struct, isNew bool, hidden map[string]int32, expanding map[*types.Struct]bool, fields *[]*Field) {
 	for i := 0; i < st.NumFields(); i++ {
 		f := st.Field(i)
 
 		if f.Embedded() {
-			expandIfStruct(pkg, qf, depth, f.Type(), isNew, hidden, fields)
+			expandIfStruct(pkg, qf, depth, f.Type(), isNew, hidden, expanding, fields)
 			continue
 		}
 
